@@ -459,6 +459,19 @@ func runRedef(c *Ctx) {
 			case *ssa.Call:
 				if core.CalleeName(x.Common()) == "builtin.append" {
 					walk(x.Common().Args[0], d+1)
+					// append(nil-or-fresh, opts...) : a private copy of the captured options
+					if len(x.Common().Args) == 2 {
+						src := x.Common().Args[1]
+						isOpts := false
+						if d := p.DerefFree(src); d != nil && d == ssa.Value(redefine.Params[1]) {
+							isOpts = true
+						} else if fv, ok := src.(*ssa.FreeVar); ok && p.Binding(fv) == ssa.Value(redefine.Params[1]) {
+							isOpts = true
+						}
+						if isOpts && (core.IsNilConst(x.Common().Args[0]) || p.FreshIn(x.Common().Args[0])) {
+							hasOpts, private = true, true
+						}
+					}
 					for _, e := range appendedValues(x) {
 						if cl, ok := e.(*ssa.Call); ok && cl.Common().StaticCallee() != nil {
 							switch cl.Common().StaticCallee().Name() {
@@ -524,6 +537,28 @@ func runRedef(c *Ctx) {
 					if core.CalleeName(x.Common()) == "builtin.append" {
 						if fr, ok := core.AsFieldLoad(x.Common().Args[0]); ok && fr.Owner == "Result" && fr.Field == "out" {
 							okPath = true
+						}
+					}
+					// helper form: zeroValuesWithError(types, err) returning a fresh slice whose last element is ValueOf(err)
+					if h := x.Common().StaticCallee(); h != nil && p.InTarget(h) && h.Blocks != nil {
+						for _, hr := range core.Returns(h) {
+							for _, hs := range core.Sources(hr.Results[0]) {
+								if mk, ok := hs.(*ssa.MakeSlice); ok {
+									core.Instrs(h, func(in ssa.Instruction) {
+										if st, ok := in.(*ssa.Store); ok {
+											if ia, ok := st.Addr.(*ssa.IndexAddr); ok && ia.X == ssa.Value(mk) {
+												if cl, ok := st.Val.(*ssa.Call); ok && core.CalleeName(cl.Common()) == "reflect.ValueOf" {
+													if _, isParam := core.Strip(cl.Common().Args[0]).(*ssa.Parameter); isParam {
+														if b, ok := ia.Index.(*ssa.BinOp); ok && b.Op == token.SUB {
+															errPath = true
+														}
+													}
+												}
+											}
+										}
+									})
+								}
+							}
 						}
 					}
 				default:
